@@ -48,7 +48,9 @@ func (w *Workers) Call(count int, value func() (interface{}, error)) (interface{
 		},
 	)
 	w.target = count
-	for w.count < count {
+	// workers never idle (they exit when the queue is empty), so there is no point starting more of them than there
+	// are values queued: a huge count ("no limit") must not start that many goroutines up front, with the lock held
+	for spawn := len(w.queue); spawn > 0 && w.count < count; spawn-- {
 		w.count++
 		go w.worker()
 	}
